@@ -391,6 +391,65 @@ def directed_cut_order(ctx):
     return cases
 
 
+def directed_name_steps(ctx):
+    """the name-modifying steps chained: several --strip-suffix (each sees what the previous one left), then -x/-y or --rename, then nothing else;
+    read names carry two or three of the suffixes stacked at the end, in either order, or the same suffix twice"""
+    rng = ctx.rng
+    cases = []
+    for _ in range(ctx.scale(30, 400)):
+        sufs = rng.sample(["/1", "_filtered", ".fq", "_x", "/1"], rng.randint(2, 3))
+        paired = rng.random() < 0.3
+        argv = ["--no-index"]
+        for sf in sufs:
+            argv += ["--strip-suffix", sf]
+        k = rng.random()
+        if k < 0.3:
+            argv += ["-y", rng.choice(["_s", "/1"])]
+        elif k < 0.5:
+            argv += ["-x", "P_"]
+        elif k < 0.7:
+            argv += ["--rename", rng.choice(["{id} n", "{id}_{comment}", "{header}"])]
+        if rng.random() < 0.3:
+            argv += ["--length-tag", "len="]
+        argv += ["-o", "{dir}/o1.fastq"] + (["-p", "{dir}/o2.fastq"] if paired else [])
+        def nm(i):
+            tail = "".join(rng.choice(sufs + sufs[:1]) for _ in range(rng.randint(0, 3)))
+            return f"read{i}{tail}" + (rng.choice(["", " len=4", " c"]) if "--rename" in argv or "--length-tag" in argv else "")
+        r1 = []
+        for i in range(8):
+            s_ = pipe.rs(rng, rng.randint(3, 12))
+            r1.append((nm(i), s_, "I" * len(s_)))
+        # (mates must keep matching ids: same name on both sides)
+        r2 = [(n_, pipe.rs(rng, len(s_)), "5" * len(s_)) for n_, s_, _ in r1] if paired else None
+        cases.append(dict(argv=argv, paired=paired, reads1=r1, reads2=r2, with_qual=True, interleaved_in=False, name_steps=True))
+    return cases
+
+
+def name_steps_oracle(ctx, case, real):
+    if not case.get("name_steps") or "error" in real:
+        return
+    argv = case["argv"]
+    sufs = [argv[i + 1] for i, t in enumerate(argv) if t == "--strip-suffix"]
+    if "--rename" in argv or "--length-tag" in argv:
+        return          # (those are compared with the model only)
+    pre = argv[argv.index("-x") + 1] if "-x" in argv else ""
+    suf = argv[argv.index("-y") + 1] if "-y" in argv else ""
+    def chain(n_):
+        for sf in sufs:
+            if n_.endswith(sf):
+                n_ = n_[: -len(sf)]
+        return pre + n_ + suf
+    for fn, reads in (("o1.fastq", case["reads1"]), ("o2.fastq", case["reads2"] or [])):
+        got = [r[0] for r in real["files"].get(fn, [])]
+        exp = [chain(n_) for n_, _, _ in reads]
+        if reads and got != exp:
+            bad = [(a, b) for a, b in zip(got, exp) if a != b][:3]
+            ctx.failures.append(Failure("C10/strip-suffix-chain", "several --strip-suffix options are not applied one after the other, each to what the previous one left "
+                                        "(then -x/-y)", case_input(case), [a for a, b in bad] or len(got), [b for a, b in bad] or len(exp)))
+            return
+    ctx.count("name-steps-checked")
+
+
 def tokenizer_cases(ctx):
     """`tokenize_braces` (validation of --rename templates) against the model: random strings over braces, letters and placeholders"""
     from core import correspond, hx
@@ -416,11 +475,12 @@ def run(ctx):
                  "random subsets of the read-modifying options (single and paired) with a random permutation of the option tokens, plus directed single-end cases "
                  "without adapters compared with a reference composition on reads where adjacent stages interact, plus one-sided paired cases (routing); "
                  "non-trivial = distinct modifier class sequence with more than two stages", nontrivial=lambda c, r: False)
-    for case, res, real, model in pipe.run_cases(ctx, directed(ctx) + directed_stepwise(ctx) + directed_cut_order(ctx)):
+    for case, res, real, model in pipe.run_cases(ctx, directed(ctx) + directed_stepwise(ctx) + directed_cut_order(ctx) + directed_name_steps(ctx)):
         ctx.count("directed")
         oracle(ctx, case, res, real)
         stepwise_oracle(ctx, case, real)
         cuts_in_order_oracle(ctx, case, real)
+        name_steps_oracle(ctx, case, real)
 
 
 def extended_search(ctx):
@@ -434,6 +494,7 @@ def _replay_oracle(ctx, case, res, real):
     oracle(ctx, case, res, real)
     stepwise_oracle(ctx, dict(case, stepwise=True), real)
     tmpl = case["argv"][case["argv"].index("--rename") + 1] if "--rename" in case["argv"] else ""
+    name_steps_oracle(ctx, dict(case, name_steps="--strip-suffix" in case["argv"]), real)
     cuts_in_order_oracle(ctx, dict(case, cut_order=tmpl in ("{id} {cut_prefix}|{cut_suffix}", "{id} {r1.cut_prefix}|{r1.cut_suffix}|{r2.cut_prefix}|{r2.cut_suffix}")), real)
 
 
